@@ -144,6 +144,7 @@ where
                 // Check if we can squeeze a bit more data from the other side to send in the same frame
                 let mut should_shutdown = false;
                 let mut read_error = None;
+                let mut other_pending = false;
                 // (up to the size one frame may have: see `MAX_PUSH_PAYLOAD`)
                 while cumulated_len < crate::stream::MAX_PUSH_PAYLOAD {
                     let new_buf = match other.as_mut().poll_fill_buf(cx) {
@@ -154,7 +155,10 @@ where
                             read_error = Some(e);
                             break;
                         }
-                        Poll::Pending => break,
+                        Poll::Pending => {
+                            other_pending = true;
+                            break;
+                        }
                     };
                     if new_buf.is_empty() {
                         // The other side is EOF'd, send what we have and then shutdown
@@ -180,9 +184,14 @@ where
                     *this.write_state = WriteState::Done(written_amt);
                     return Poll::Ready(Ok(written_amt));
                 }
+                *this.write_state = WriteState::Transferring(written_amt);
+                if !other_pending {
+                    // The frame is full while the other side may have more data ready:
+                    // nobody has our waker, so ask to be polled again
+                    cx.waker().wake_by_ref();
+                }
                 // Else: we exited the loop because `poll_fill_buf` returned `Pending`
                 // We return `Pending` and `poll_fill_buf` has our waker
-                *this.write_state = WriteState::Transferring(written_amt);
                 Poll::Pending
             }
             WriteState::Done(written_amt) => Poll::Ready(Ok(written_amt)),
